@@ -83,7 +83,7 @@ def run(pid, tier, seed, njobs=None):
     t0 = time.time()
     verdict = lib.Verdict(pid)
     rng = random.Random(seed)
-    n = njobs or (240 if tier == "quick" else 3000)
+    n = njobs or (240 if tier == "quick" else 1500)
     jobs = []
     for i in range(n):
         if i % 4 == 3:
@@ -110,7 +110,7 @@ def run(pid, tier, seed, njobs=None):
         if p["ev"]:
             byid[p["id"]] = (job, trace, p)
             projected.append(p)
-    v = lib.validate_traces("Trace_RB", projected, "c06", workers=8, timeout=2400)
+    v = lib.validate_traces("Trace_RB", projected, "c06", workers=8, timeout=2400, chunk=400)
     for rid in v["rejected"]:
         job, trace, p = byid[rid]
         d = lib.diagnose_trace("Trace_RB", p, "c06")
@@ -130,7 +130,7 @@ def run(pid, tier, seed, njobs=None):
             if sp["ev"]:
                 steps.append(sp)
                 sbyid[sp["id"]] = (job, sp)
-    sv = lib.validate_traces("Trace_RBStep", steps, "c06s", workers=8, timeout=2400)
+    sv = lib.validate_traces("Trace_RBStep", steps, "c06s", workers=8, timeout=2400, chunk=400)
     for rid in sv["rejected"]:
         job, sp = sbyid[rid]
         d = lib.diagnose_trace("Trace_RBStep", sp, "c06s")
